@@ -434,6 +434,7 @@ class Program:
                 b.enclosing = base
         for b in self.bodies.values():
             self.by_short[b.short].append(b)
+            b.program = self
         self._cg = None
         # functions the rules do not know (not in tables/known_functions.json) are inlined into their callers: see inline.py
         import inline
